@@ -51,6 +51,7 @@ ASSUMPTIONS = ["networks are built the way test_mapping.py builds them: edge geo
 N_VARIANTS = 4
 
 OBLIGATIONS = {
+    "network_with_a_past": "a network that had been indexed and matched on elsewhere, then moved in place and indexed again",
     "second_track_of_a_collection": "the track was also matched as the second track of a TrackCollection (after a different track) in one call",
     "edge_with_repeated_vertex": "a network whose edge geometries carry the same vertex twice in a row was matched",
     "unmatched_observation": "an observation is flagged unmatched",
@@ -288,9 +289,25 @@ FILLER2 = {"name": "skew", "drop": None, "orient": None, "res": (10.0, 3.0), "se
 class World(object):
     """The networks of one shard (built once, fingerprinted)."""
 
-    def __init__(self, variant, name, drop, orient, res):
+    def __init__(self, variant, name, drop, orient, res, past=None):
         self.variant, self.name, self.drop, self.orient, self.res = variant, name, drop, orient, res
+        self.past = past
         self.net, self.real = build_network(variant, name, drop, orient, res)
+        if past == "moved":
+            # the network has a past: it stood 8 units to the west and 4 to the north, was indexed and matched on there,
+            # and was then moved IN PLACE to where it is now and indexed again
+            sc = _scale(variant)
+            r = None if res is None else (res[0] * sc, res[1] * sc)
+            self._move(-8.0 * sc, 4.0 * sc)
+            self.net.spatial_index = SpatialIndex(self.net, resolution=r, margin=MARGIN, verbose=False)
+            xs = [p[0] for g in self.real for p in g]
+            ys = [p[1] for g in self.real for p in g]
+            trk = Track([Obs(ENUCoords(x - 8.0 * sc, y + 4.0 * sc, 1.5), alpha.obstime(alpha.t0(variant % 10) + DT * k))
+                         for k, (x, y) in enumerate([(min(xs), min(ys)), (sum(xs) / len(xs), sum(ys) / len(ys)), (max(xs), max(ys))])])
+            guard(mapOnNetwork, trk, self.net, gps_noise=50, search_radius=60.0 * sc)
+            self._move(8.0 * sc, -4.0 * sc)
+            self.net.spatial_index = SpatialIndex(self.net, resolution=r, margin=MARGIN, verbose=False)
+            env.reset_globals()
         f = FILLER2 if name == "core" else FILLER
         self.filler = f
         self.fnet, _ = build_network(variant, f["name"], f["drop"], f["orient"], f["res"])
@@ -306,10 +323,22 @@ class World(object):
         self.fp = fingerprint(self.net)
         self.d2cache = {}
 
+    def _move(self, dx, dy):
+        coords = {}                      # every distinct coordinate object of the network, once
+        for n in range(self.net.getNumberOfEdges()):
+            e = self.net.EDGES[self.net.getEdgeId(n)]
+            for c in [o.position for o in e.geom] + [e.source.coord, e.target.coord]:
+                coords[id(c)] = c
+        for c in coords.values():
+            c.translate(dx, dy)
+
     def case(self, radius, noise, seq):
-        return {"op": "map", "variant": self.variant, "net": self.name, "drop": self.drop,
-                "orient": list(self.orient) if self.orient else None, "res": list(self.res) if self.res else None,
-                "radius": radius, "noise": noise, "seq": [list(p) for p in seq]}
+        c = {"op": "map", "variant": self.variant, "net": self.name, "drop": self.drop,
+             "orient": list(self.orient) if self.orient else None, "res": list(self.res) if self.res else None,
+             "radius": radius, "noise": noise, "seq": [list(p) for p in seq]}
+        if self.past:
+            c["past"] = self.past
+        return c
 
     def d2edges(self, q):
         """exact squared distance of an observation to every edge (cached per observation point)."""
@@ -466,7 +495,8 @@ def check_map(W, radius_l, noise, seq, ctx, history=True):
 
 
 def replay(case, ctx):
-    W = World(case["variant"], case["net"], case["drop"], case["orient"], tuple(case["res"]) if case["res"] else None)
+    W = World(case["variant"], case["net"], case["drop"], case["orient"], tuple(case["res"]) if case["res"] else None,
+              case.get("past"))
     check_map(W, case["radius"], case["noise"], [tuple(p) for p in case["seq"]], ctx)
 
 
@@ -512,10 +542,18 @@ def _decimal_shards(variant):
             if sh["net"] in ("grid", "oblique", "dup") and sh["res"] == res0 and sh["radius"] in rads + [2]]
 
 
+def _moved_shards(variant):
+    """The oblique and the grid network with a past (moved in place after a first matching), first resolution, two radii."""
+    res0 = alpha.order(variant % 10, list(range(len(RESOLUTIONS))))[0]
+    rads = alpha.order(variant % 10, list(range(len(RADII))))[:2]
+    return [dict(sh, past="moved") for sh in _plan_variant(variant, False)
+            if sh["net"] in ("grid", "oblique") and sh["res"] == res0 and sh["radius"] in rads]
+
+
 def plan(tier, variant):
     if tier == "quick":
-        return _plan_variant(variant, False) + _decimal_shards(variant)
-    sh = _plan_variant(variant, True) + _decimal_shards(variant)
+        return _plan_variant(variant, False) + _decimal_shards(variant) + _moved_shards(variant)
+    sh = _plan_variant(variant, True) + _decimal_shards(variant) + _moved_shards(variant)
     for v in range(N_VARIANTS):
         if v != variant:
             sh += _plan_variant(v, False)
@@ -580,7 +618,9 @@ def run_shard(shard, ctx):
     if shard["net"] == "dup":
         ctx.oblige("edge_with_repeated_vertex")
     res = RESOLUTIONS[shard["res"]]
-    W = World(v, shard["net"], shard["drop"], shard["orient"], res)
+    W = World(v, shard["net"], shard["drop"], shard["orient"], res, shard.get("past"))
+    if shard.get("past"):
+        ctx.oblige("network_with_a_past")
     radius = RADII[shard["radius"]]
     n = 0
     for seq in _sequences(shard["net"], shard["blocks"], shard["full2"]):
